@@ -274,16 +274,24 @@ def check_byte_queue(ctx):
     ctx.touch(pop)
     p = pop.node.args.args[1].arg
     ok = False
+    lead = f"self._buffer[:{p}]"
     for st in rules.func_stmts(pop.node):
         if isinstance(st, ast.With) and any(dotted(i.context_expr) == "self._buffer_lock" for i in st.items):
-            body = [norm(s) for s in st.body]
-            ok = body == [f"data = self._buffer[:{p}]", f"del self._buffer[:{p}]", "return data"]
+            # under the lock: take the leading slice, then delete exactly that slice; nothing else touches the buffer
+            took = [s for s in st.body if isinstance(s, ast.Assign) and len(s.targets) == 1 and isinstance(s.targets[0], ast.Name) and norm(s.value) == lead]
+            dels = [s for s in st.body if isinstance(s, ast.Delete)]
+            other = [s for s in st.body if s not in took and s not in dels and not isinstance(s, ast.Return)]
+            rets = [s for s in rules.func_stmts(pop.node) if isinstance(s, ast.Return)]
+            ok = (len(took) == 1 and len(dels) == 1 and [norm(t) for t in dels[0].targets] == [lead] and not other
+                  and st.body.index(took[0]) < st.body.index(dels[0])
+                  and len(rets) == 1 and norm(rets[0].value) == took[0].targets[0].id
+                  and (rets[0] not in st.body or st.body.index(rets[0]) > st.body.index(dels[0])))
     ctx.ob("C04.W1", pop.qualname, ok, "pop returns the first n bytes and removes exactly those, under the lock" if ok else "ByteQueue.pop does not return+remove the same leading bytes under its lock: bytes are lost or duplicated between frames", where=pop.where)
     peek = repo.method("ByteQueue", "peek", inherited=False)
     p = peek.node.args.args[1].arg
     rets = [s for s in rules.func_stmts(peek.node) if isinstance(s, ast.Return)]
     removes = any(isinstance(s, ast.Delete) for s in rules.func_stmts(peek.node))
-    ok = len(rets) == 1 and norm(rets[0].value) == f"self._buffer[:{p}]" and not removes
+    ok = len(rets) == 1 and rules.expand(peek.node, rets[0].value) == f"self._buffer[:{p}]" and not removes
     ctx.ob("C04.W1", peek.qualname, ok, "peek returns the first n bytes without removing them" if ok else "ByteQueue.peek does not return the leading bytes unconsumed", where=peek.where)
     wf = repo.method("ByteQueue", "wait_for", inherited=False)
     ctx.touch(wf)
